@@ -4,6 +4,7 @@ import itertools
 from harness import gen_c17 as G
 from harness.impl_tbl import impl_tbl_op
 
+WARM_TWINS = {"quick": 0.02, "thorough": 0.05}      # engine: call-history twins (harness/warm.py)
 ID = "C17"
 LEAN_MODULE = "BioCantor.Props.C17"
 DESIGN_REF = "4/C17"
